@@ -62,9 +62,9 @@ func mutexClass(a ssa.Value) string {
 		if pt, ok := x.X.Type().Underlying().(*types.Pointer); ok {
 			st := pt.Elem().Underlying().(*types.Struct)
 			if n, ok := pt.Elem().(*types.Named); ok {
-				return short(n.Obj().Pkg().Path()) + "." + n.Obj().Name() + "." + st.Field(x.Field).Name()
+				return short(n.Obj().Pkg().Path()) + "." + typName(n) + "." + fldName(st.Field(x.Field))
 			}
-			return "struct." + st.Field(x.Field).Name()
+			return "struct." + fldName(st.Field(x.Field))
 		}
 	case *ssa.Alloc:
 		return "local:" + x.Comment
